@@ -23,7 +23,10 @@ PARTIAL = {
     N + "weak_strong_systems": "convergence of SciPy's GMRES/CG and info == 0 are not modelled (third party): the theorem "
     "transfers whatever residual bound the routine achieves for the operator/right-hand side it was handed to the stated "
     "system and fixes the space of the result",
-    N + "weak_strong_systems_cg": "as weak_strong_systems",
+    N + "weak_strong_systems_cg": "as weak_strong_systems.  The theorem says which matrix reaches SciPy's cg (M^-1 W in strong "
+    "form); it does not say that this matrix is symmetric, and it is not when the element areas differ: the oracle requires "
+    "convergence of strong-form CG wherever M^-1 W is symmetric (identity operators, Laplace single layer on the regular "
+    "octahedron) and reports the fixed non-symmetric input as finding cg-strong-form-nonsymmetric-system while it fails",
     N + "weak_strong_systems_blocked": "as weak_strong_systems",
     N + "precomputed_lu_same": "both SciPy paths are assumed exact",
     N + "precomputed_lu_same_blocked": "both SciPy paths are assumed exact",
@@ -39,8 +42,6 @@ TRUSTED = [
 ASSUMPTIONS = [
     "oracle tolerances: lu recovers f to 1e-10 relative for cond <= 1e6; iterative solvers: true relative residual of the stated "
     "system <= tol*(1+1e-6)+5e-15 (GMRES) resp. <= 1.05*tol+2e-14 (CG, recurrence vs. true residual), error <= 4*cond*tol+1e-9",
-    "CG in strong form is only required to converge where the strong-form matrix M^-1 W is symmetric (identity operators, "
-    "Laplace single layer on a grid with equal element areas); the non-symmetric case is recorded in stats, not judged",
 ]
 RULE = ("a case is non-trivial when the system is blocked with at least two different block sizes, or any of operator / "
         "right-hand side / solver answer is complex; distinct by (routine, block structure with dof counts, weak/strong, "
@@ -55,7 +56,8 @@ LEVEL_TEXT = ("Lean 4 theorems over a Mathlib-free model of the solver wrappers 
               "run; the property itself is exercised on real SciPy solves by the oracle.")
 LEVEL_NOTE = ("partial: exactness/convergence of SciPy's routines, info==0, rounding and conditioning are hypotheses of the "
               "theorems and covered by the numerical oracle only.  Trusted: Lean kernel, hand model Model/Solve.lean tied by "
-              "differential comparison with recording stubs, SciPy.")
+              "differential comparison with recording stubs, SciPy.  Recorded finding: cg with use_strong_form=True is handed the "
+              "non-symmetric M^-1 W on grids with unequal element areas and may not converge (cg-strong-form-nonsymmetric-system).")
 TECHNIQUE = "Lean 4 proof (structural induction on block lists) + differential correspondence with recording stubs + oracle"
 
 TOL_CMP = 1e-9
@@ -798,8 +800,6 @@ def _oracle_systems(env, rng, deep):
             a = complex(1.0, rng.choice([0.5, -0.75, 1.25]))
             scal = [[None if s is None else a * s for s in row] for row in scal]
             fam = "pd" if fam in ("spd", "pd") else "inv"
-        if mode != "tri" and rng.random() < 0.5 and fam != "spd":
-            pass
         return _System(env, g, True, doms, rngs, doms, scal), fam
 
     plans = [
@@ -836,6 +836,57 @@ def _minv_apply(env, sysm, v):
         out.append(np.linalg.solve(M, piece) if M.shape[0] == M.shape[1] else np.linalg.pinv(M) @ piece)
         pos += k
     return np.concatenate(out)
+
+
+def _cg_strong_finding(env):
+    """cg(V, V*f, tol=1e-12, use_strong_form=True) for the Laplace single layer on DP0 of the octahedron perturbed with
+    random.Random(15), amount 0.3 (independent of VERIF_SEED; with amount 0.15 this particular geometry happens to
+    converge), f = 1..8.  The weak form must converge; the strong form is the recorded finding
+    `cg-strong-form-nonsymmetric-system`."""
+    import random
+    import warnings
+    from vlib import meshgen as mg
+    api, np = env.api, env.np
+    res = Result()
+    V, E = mg.octahedron()
+    V = mg.perturb(V, 0.3, random.Random(15), dyadic_bits=8)
+    g = api.Grid(V, E)
+    s = api.function_space(g, "DP", 0)
+    Vop = api.operators.boundary.laplace.single_layer(s, s, s)
+    f = api.GridFunction(s, coefficients=np.arange(1.0, s.global_dof_count + 1))
+    W = np.asarray(Vop.weak_form().to_dense())
+    M = env.mass(s, s)
+    A = np.linalg.solve(M, W)
+    tol = 1e-12
+    b = Vop * f
+    with warnings.catch_warnings():
+        warnings.simplefilter("ignore")
+        xw, info_w = api.cg(Vop, b, tol=tol)
+        xs, info_s = api.cg(Vop, Vop * f, tol=tol, use_strong_form=True)
+    pw = W @ f.coefficients
+    cb = np.linalg.solve(M, pw)
+    rel_w = float(np.linalg.norm(pw - W @ xw.coefficients) / np.linalg.norm(pw))
+    rel_s = float(np.linalg.norm(cb - A @ xs.coefficients) / np.linalg.norm(cb))
+    asym = float(np.max(np.abs(A - A.T)) / np.max(np.abs(A)))
+    res.case(("cg-strong-finding", "weak"), nontrivial=False)
+    res.case(("cg-strong-finding", "strong"), nontrivial=False)
+    res.stats["cg_strong_form_fixed_input"] = dict(info_weak=int(info_w), rel_residual_weak=float(f"{rel_w:.3e}"),
+                                                   info_strong=int(info_s), rel_residual_strong=float(f"{rel_s:.3e}"),
+                                                   asymmetry_of_Minv_W=float(f"{asym:.3e}"))
+    if info_w != 0 or rel_w > 1.05 * tol + 2e-14:
+        res.counterexample("cg-info-nonzero", f"cg (weak form) on the Laplace single layer, fixed perturbed octahedron: "
+                           f"info={info_w}, relative residual {rel_w:.3e}")
+    if info_s != 0 or rel_s > tol:
+        res.counterexample(
+            "cg-strong-form-nonsymmetric-system",
+            f"cg(V, V*f, tol=1e-12, use_strong_form=True) for the Laplace single layer V on DP0 of the octahedron perturbed by "
+            f"meshgen.perturb(V, 0.3, random.Random(15), dyadic_bits=8), f = 1..8: info={info_s}, true relative residual of "
+            f"the stated system M^-1 W x = c_b is {rel_s:.3e} (> tol); the weak form of the same system gives info={info_w}, "
+            f"residual {rel_w:.3e}.  The wrapper hands SciPy's cg the matrix M^-1 W, which is not symmetric when element "
+            f"areas differ (relative asymmetry {asym:.2e})",
+            info=int(info_s), rel_residual=rel_s, tol=tol, info_weak=int(info_w), rel_residual_weak=rel_w, asymmetry=asym,
+            vertices=V.tolist(), elements=np.asarray(E).tolist())
+    return res
 
 
 def oracle(ctx, deep=False):
@@ -877,6 +928,8 @@ def oracle(ctx, deep=False):
         cond = float(np.linalg.cond(W))
         res.stats.setdefault("cond", {})[name] = round(cond, 2)
         nt_sys = sysm.different_block_sizes()
+        # block rows whose range and dual spaces have different dof counts exercise the slicing of projection vectors
+        slice_case = sysm.blocked and sysm.structure()["range_dofs"] != sysm.structure()["dual_dofs"]
         for cplx in (False, True):
             nt = nt_sys or cplx or sysm.cplx
             f = make_f(sysm, cplx)
@@ -885,7 +938,7 @@ def oracle(ctx, deep=False):
             try:
                 b = sysm.op * f
             except Exception as e:  # noqa
-                res.counterexample("apply-raises" if not nt_sys else "blocked-projections-slice",
+                res.counterexample("apply-raises" if not slice_case else "blocked-projections-slice",
                                    f"A*f raises {type(e).__name__}: {e} for system {name}", system=sysm.structure())
                 continue
             # ---- LU
@@ -899,8 +952,7 @@ def oracle(ctx, deep=False):
                     res.counterexample("lu-result-space", f"lu: result does not live in the domain space(s) ({name})",
                                        system=sysm.structure())
                 if err > 1e-10:
-                    key = "blocked-projections-slice" if (sysm.blocked and sysm.structure()["range_dofs"] !=
-                                                           sysm.structure()["dual_dofs"]) else "lu-roundtrip"
+                    key = "blocked-projections-slice" if slice_case else "lu-roundtrip"
                     res.counterexample(key, f"lu(A, A*f) differs from f by {err:.3e} (relative, cond {cond:.1f}) for {name}",
                                        system=sysm.structure(), complex=bool(cplx), error=err)
                 # precomputed factors
@@ -921,7 +973,7 @@ def oracle(ctx, deep=False):
                                        f"(error {e3:.3e}) for {name}: the supplied factors are not what is used",
                                        system=sysm.structure())
             except Exception as e:  # noqa
-                res.counterexample("lu-raises" if not nt_sys else "blocked-projections-slice",
+                res.counterexample("lu-raises" if not slice_case else "blocked-projections-slice",
                                    f"lu raises {type(e).__name__}: {e} for {name}", system=sysm.structure())
             # ---- iterative
             n = W.shape[1]
@@ -933,6 +985,11 @@ def oracle(ctx, deep=False):
                     # the stated system, built independently
                     pb = np.concatenate([x_.projections(sysm.space(d)) for x_, d in
                                          zip(b if isinstance(b, list) else [b], sysm.duals)])
+                    if len(pb) != W.shape[0]:
+                        res.counterexample("blocked-projections-slice" if slice_case else "apply-projections-length",
+                                           f"A*f carries {len(pb)} projections, the weak form has {W.shape[0]} rows ({name})",
+                                           system=sysm.structure())
+                        continue
                     if strong:
                         Aref = np.array([_minv_apply(env, sysm, W[:, j]) for j in range(n)]).T
                         bref = _minv_apply(env, sysm, pb)
@@ -951,9 +1008,9 @@ def oracle(ctx, deep=False):
                     else:
                         settings = [(None, None), (None, 2000)]
                     if not deep:
-                        settings = settings[:1] + rng.sample(settings[1:], min(2, len(settings) - 1))
-                    for tol, (restart, maxiter) in itertools.product(tols if deep else tols[::2] + [tols[rng.choice([1, 3])]],
-                                                                     settings):
+                        settings = settings[:1] + rng.sample(settings[1:], 1)
+                    for tol, (restart, maxiter) in itertools.product(
+                            tols if deep else [tols[0], tols[-1], tols[rng.choice([1, 2, 3])]], settings):
                         kw = dict(tol=tol, use_strong_form=strong, return_residuals=True, return_iteration_count=True)
                         if maxiter is not None:
                             kw["maxiter"] = maxiter
@@ -962,12 +1019,14 @@ def oracle(ctx, deep=False):
                         ckey = (routine, name, cplx, strong, tol, restart, maxiter)
                         res.case(ckey, nontrivial=nt)
                         res.count("oracle_" + routine)
+                        res.count("oracle_iterative_" + ("strong" if strong else "weak") + ("_blocked" if sysm.blocked else "_single"))
                         try:
                             with warnings.catch_warnings():
                                 warnings.simplefilter("ignore")
                                 sol, info, resid, cnt = getattr(api, routine)(sysm.op, b, **kw)
                         except Exception as e:  # noqa
-                            res.counterexample(f"{routine}-raises", f"{routine} raises {type(e).__name__}: {e} for {name} "
+                            res.counterexample(f"{routine}-raises" if not slice_case else "blocked-projections-slice",
+                                               f"{routine} raises {type(e).__name__}: {e} for {name} "
                                                f"(strong={strong}, tol={tol})", system=sysm.structure())
                             continue
                         tag = f"{routine} {name} strong={strong} tol={tol} restart={restart} maxiter={maxiter} complex={cplx}"
@@ -1025,27 +1084,26 @@ def oracle(ctx, deep=False):
                                                "the stated system: " + tag, system=sysm.structure(),
                                                reported=[float(v) for v in resid[:m_]], direct=[float(v) for v in log[:m_]])
                     # default arguments, no extras: return tuple has two entries
-                    with warnings.catch_warnings():
-                        warnings.simplefilter("ignore")
-                        r2 = getattr(api, routine)(sysm.op, b, use_strong_form=strong)
                     res.case((routine, name, cplx, strong, "defaults"), nontrivial=nt)
+                    try:
+                        with warnings.catch_warnings():
+                            warnings.simplefilter("ignore")
+                            r2 = getattr(api, routine)(sysm.op, b, use_strong_form=strong)
+                    except Exception as e:  # noqa
+                        res.counterexample(f"{routine}-raises" if not slice_case else "blocked-projections-slice",
+                                           f"{routine} with default arguments raises {type(e).__name__}: {e} for {name}",
+                                           system=sysm.structure())
+                        continue
                     if len(r2) != 2 or r2[1] != 0 or not spaces_ok(sysm, r2[0]):
                         res.counterexample(f"{routine}-defaults", f"{routine} with default arguments: tuple length {len(r2)}, "
                                            f"info {r2[1]} for {name} strong={strong}", system=sysm.structure())
-    # observation (not judged): CG in strong form where M^-1 W is not symmetric
+    # recorded finding: CG with use_strong_form=True hands SciPy's cg the matrix M^-1 W, which is not symmetric when the
+    # element areas differ.  ONE fixed, seed-independent input; reported only while it actually fails.
     try:
-        s = env.spaces["oct"]["DP0"]
-        Vop = api.operators.boundary.laplace.single_layer(s, s, s)
-        f = api.GridFunction(s, coefficients=np.arange(1.0, s.global_dof_count + 1))
-        with warnings.catch_warnings():
-            warnings.simplefilter("ignore")
-            _, info_w = api.cg(Vop, Vop * f, tol=1e-12)
-            _, info_s = api.cg(Vop, Vop * f, tol=1e-12, use_strong_form=True)
-        res.stats["observation_cg_laplace_perturbed_octahedron_tol1e-12"] = dict(info_weak=int(info_w), info_strong=int(info_s))
-        if info_w != 0:
-            res.counterexample("cg-info-nonzero", f"cg weak form on the Laplace single layer (perturbed octahedron) info={info_w}")
+        res.merge(_cg_strong_finding(env))
     except Exception as e:  # noqa
-        res.notes.append(f"cg observation failed: {e!r}")
+        res.counterexample("cg-strong-form-raises", f"cg strong form on the fixed perturbed octahedron raises "
+                           f"{type(e).__name__}: {e}")
     res.stats["oracle_worst"] = {k: float(f"{v:.3e}") for k, v in worst.items()}
     return res
 
